@@ -142,6 +142,8 @@ def gen(ctx):
                 dec.append('%s.dec %s' % (sym, refqr.to_image_str(m)))
                 dmeta.append((sym, ver, level, mask, segs, src, kind, where, ndam))
     ctx.c03 = dmeta
+    _NONTRIVIAL.clear()
+    _NONTRIVIAL.update(l for l, mm in zip(dec, dmeta) if mm[8] > 0)
     return dec
 
 
@@ -164,8 +166,12 @@ def oracle(ctx, lines, out):
     return v
 
 
+_NONTRIVIAL = set()
+
+
 def nontrivial(line, out):
-    return True
+    # measured: the line decodes a bitmap in which at least one codeword was damaged
+    return line in _NONTRIVIAL
 
 
 def search(ctx, broken, diffs):
